@@ -2,6 +2,7 @@
    image <gfx> <map> <gff> <music> <sfx> <text> <version> <label rows> <out rows>           -> true | false
    readback <gfx> <map> <gff> <music> <sfx> <text> <version> <gfx'> <map'> <gff'> <music'> <sfx'> <code'> <version'> -> true | false
    refused <text>                                                                            -> true | false
+   refusedw <text> <stream>   (a refusal although <stream> is a valid compressed form that fits) -> true | false
    romtext <rows>      -> SOME <text> | NONE    (independent reading of the code area; for reports) *)
 let rows_of_str s = if s = "-" then [] else List.map bytes_of_hex (String.split_on_char '|' s)
 
@@ -16,6 +17,7 @@ let handle fields =
                       (bytes_of_hex g2) (bytes_of_hex m2) (bytes_of_hex f2) (bytes_of_hex mu2)
                       (bytes_of_hex sf2) (bytes_of_hex c2) (z_of_str v2))
   | ["refused"; t] -> string_of_bool (holds_C04_refused (bytes_of_hex t))
+  | ["refusedw"; t; st] -> string_of_bool (holds_C04_refused_witness (bytes_of_hex t) (bytes_of_hex st))
   | ["pixels"; pd; label; out; back] ->
     string_of_bool (holds_C04_pixels (bytes_of_hex pd) (rows_of_str label) (rows_of_str out) (bytes_of_hex back))
   | ["flag"; b] -> string_of_bool (b = "1")     (* a check made by the harness itself: destination left untouched *)
